@@ -8,7 +8,8 @@ are exactly int(text.replace("_", ""), 0) and literal_eval(text.replace("_", "")
 literals are converted by the fixed pipeline quotes-stripped -> newline normalisation ->
 ascii/backslashreplace -> unicode-escape with no other rewrite of the text; adjacent string
 tokens are concatenated by the parser; constants are re-emitted with repr() (finite floats
-with str()).  Not decided: equality of the decoded string value with Python's for every
+with str()).  Also: every spelling visit_Const writes goes through str() / repr() only.  
+Not decided: equality of the decoded string value with Python's for every
 escape sequence (depends on the codec's behaviour).
 """
 
